@@ -266,7 +266,19 @@ func (i *Instance) Schema() schema.GraphInstance {
 
 func (i *Instance) EncodeToAppSchema(appSchema *schema.App, encoder *jbtf.Encoder) {
 	nodeInstances := make(map[string]schema.AppNodeInstance)
+
+	// Binary parameters append to the encoder's shared buffer while they are
+	// encoded, so the order nodes are visited in decides the layout of the
+	// file: keep it deterministic
+	orderedNodes := make([]nodes.Node, 0, len(i.nodeIDs))
 	for node := range i.nodeIDs {
+		orderedNodes = append(orderedNodes, node)
+	}
+	sort.Slice(orderedNodes, func(a, b int) bool {
+		return i.nodeIDs[orderedNodes[a]] < i.nodeIDs[orderedNodes[b]]
+	})
+
+	for _, node := range orderedNodes {
 		id, ok := i.nodeIDs[node]
 		if !ok {
 			panic(fmt.Errorf("node %v has not had an ID generated for it", node))
